@@ -1491,6 +1491,111 @@ func TestGocvReplay(t *testing.T) {
 	}
 }
 `}
+	// version gating of every version-dependent field, on the real encoder (C05): generated from the pinned table
+	{
+		var pinned Registry
+		if loadSpec("registry.json", &pinned) && len(pinned.Versions) > 0 {
+			var rows []string
+			for _, v := range pinned.Versions {
+				rg := strings.TrimPrefix(v.Range, "v")
+				mn := strings.SplitN(rg, "..", 2)[0]
+				parts := strings.SplitN(mn, ".", 2)
+				if len(parts) != 2 {
+					continue
+				}
+				rows = append(rows, fmt.Sprintf("\t\t{new(%s), %q, %s, %s},", v.Struct, v.Field, parts[0], parts[1]))
+			}
+			replayers["scenario:C05-table"] = &Replayer{PkgDir: ".", Oracle: fmt.Sprintf("each of the %d version-dependent fields of the pinned table, populated alone in its structure and encoded by the real binary encoder at each of the protocol versions 1.0 to 1.4, is present exactly from the version that introduces it", len(rows)),
+				Template: c05Head + strings.Join(rows, "\n") + c05Tail}
+		}
+	}
+	// content the library does not model is preserved as opaque TTLV (C06); Attribute.TagDecodeTTLV works through
+	// reflect.Value and is outside the verifier's reach: this bounded check stands in for it
+	replayers["scenario:C06-opaque"] = &Replayer{PkgDir: ".", Oracle: "attributes with custom (x-, y-) and unknown names carrying a value of each of the ten TTLV types, and request / response messages with three unimplemented operation codes, decode and re-encode to the identical bytes; five unknown object types yield an error",
+		Template: `package kmip_test
+
+import (
+	"bytes"
+	"math/big"
+	"testing"
+	"time"
+
+	"github.com/ovh/kmip-go"
+	"github.com/ovh/kmip-go/payloads"
+	"github.com/ovh/kmip-go/ttlv"
+)
+
+var _ = payloads.GetRequestPayload{}
+
+func TestGocvReplay(t *testing.T) {
+	enc := func(v ttlv.Value) []byte {
+		e := ttlv.NewTTLVEncoder()
+		v.EncodeTTLV(&e)
+		return append([]byte{}, e.Bytes()...)
+	}
+	values := map[string]any{
+		"integer": int32(-7), "long": int64(1) << 40, "big": big.NewInt(1 << 20), "enum": ttlv.Enum(3), "bool": true,
+		"text": "hello", "bytes": []byte{1, 2, 3}, "date": time.Unix(1700000000, 0), "interval": 90 * time.Second,
+		"struct": ttlv.Struct{ {Tag: kmip.TagNameValue, Value: "n"}, {Tag: kmip.TagNameType, Value: ttlv.Enum(1)}},
+	}
+	// attributes the library does not know (custom and unknown standard-looking names) keep their value as opaque TTLV
+	for _, name := range []string{"x-custom", "y-vendor-attr", "Not A Standard Attribute"} {
+		for kind, val := range values {
+			raw := enc(ttlv.Value{Tag: kmip.TagAttribute, Value: ttlv.Struct{ {Tag: kmip.TagAttributeName, Value: name}, {Tag: kmip.TagAttributeValue, Value: val}}})
+			var att kmip.Attribute
+			if err := ttlv.UnmarshalTTLV(raw, &att); err != nil {
+				t.Fatalf("GOCV-REPRODUCED: {{.Obligation}}: attribute %q with a %s value is not decodable: %v", name, kind, err)
+			}
+			if again := ttlv.MarshalTTLV(&att); !bytes.Equal(again, raw) {
+				t.Fatalf("GOCV-REPRODUCED: {{.Obligation}}: attribute %q with a %s value is not preserved: re-encoding differs\n was %x\n now %x", name, kind, raw, again)
+			}
+		}
+	}
+	// operations the library does not implement keep their payload as opaque TTLV
+	for _, op := range []uint32{0x0000002C, 0x00000040, 0x7FFFFFFF} {
+		for _, dir := range []string{"request", "response"} {
+			payloadTag, msgTag, hdrTag := kmip.TagRequestPayload, kmip.TagRequestMessage, kmip.TagRequestHeader
+			if dir == "response" {
+				payloadTag, msgTag, hdrTag = kmip.TagResponsePayload, kmip.TagResponseMessage, kmip.TagResponseHeader
+			}
+			hdr := ttlv.Struct{ {Tag: kmip.TagProtocolVersion, Value: ttlv.Struct{ {Tag: kmip.TagProtocolVersionMajor, Value: int32(1)}, {Tag: kmip.TagProtocolVersionMinor, Value: int32(4)}}}}
+			item := ttlv.Struct{ {Tag: kmip.TagOperation, Value: ttlv.Enum(op)}}
+			if dir == "response" {
+				hdr = append(hdr, ttlv.Value{Tag: kmip.TagTimeStamp, Value: time.Unix(1700000000, 0)})
+				item = append(item, ttlv.Value{Tag: kmip.TagResultStatus, Value: ttlv.Enum(0)})
+			}
+			hdr = append(hdr, ttlv.Value{Tag: kmip.TagBatchCount, Value: int32(1)})
+			item = append(item, ttlv.Value{Tag: payloadTag, Value: ttlv.Struct{ {Tag: kmip.TagUniqueIdentifier, Value: "id"}, {Tag: kmip.TagData, Value: []byte{9, 9}}, {Tag: kmip.TagIVLength, Value: int32(5)}}})
+			raw := enc(ttlv.Value{Tag: msgTag, Value: ttlv.Struct{ {Tag: hdrTag, Value: hdr}, {Tag: kmip.TagBatchItem, Value: item}}})
+			var again []byte
+			var err error
+			if dir == "request" {
+				var m kmip.RequestMessage
+				if err = ttlv.UnmarshalTTLV(raw, &m); err == nil {
+					again = ttlv.MarshalTTLV(&m)
+				}
+			} else {
+				var m kmip.ResponseMessage
+				if err = ttlv.UnmarshalTTLV(raw, &m); err == nil {
+					again = ttlv.MarshalTTLV(&m)
+				}
+			}
+			if err != nil {
+				t.Fatalf("GOCV-REPRODUCED: {{.Obligation}}: %s with unknown operation 0x%X is not decodable: %v", dir, op, err)
+			}
+			if !bytes.Equal(again, raw) {
+				t.Fatalf("GOCV-REPRODUCED: {{.Obligation}}: %s with unknown operation 0x%X is not preserved: re-encoding differs\n was %x\n now %x", dir, op, raw, again)
+			}
+		}
+	}
+	// an unknown object type is an error, never a value of some other type
+	for _, ot := range []kmip.ObjectType{0, 10, 999, 0x80000001, 0xFFFFFFFF} {
+		if obj, err := kmip.NewObjectForType(ot); err == nil {
+			t.Fatalf("GOCV-REPRODUCED: {{.Obligation}}: NewObjectForType(0x%X) returns a %T instead of an error", uint32(ot), obj)
+		}
+	}
+}
+`}
 	// connection faults, sequential part (C11)
 	replayers["scenario:C11"] = &Replayer{PkgDir: "kmipclient", Oracle: "a client whose (re)connection failed can still be closed without panic and its calls fail; a call over connections that all end with EOF dials at most 4 times and returns an error",
 		Template: `package kmipclient
@@ -1654,16 +1759,51 @@ func TestGocvReplay(t *testing.T) {
 			t.Fatalf("GOCV-REPRODUCED: {{.Obligation}}: a call on a closed client: err=%v, dials %d -> %d", err, d, dials)
 		}
 	}
+	// a client that lost its connection and could not redial, then is closed: calls keep failing, no dial
+	{
+		down := true
+		dials := 0
+		c := &Client{lock: new(sync.Mutex), dialer: func(ctx context.Context) (net.Conn, error) {
+			dials++
+			if down {
+				return nil, errors.New("server down")
+			}
+			a, b := net.Pipe()
+			go func() {
+				s := ttlv.NewStream(b, 1<<20)
+				for {
+					var req kmip.RequestMessage
+					if err := s.Recv(&req); err != nil {
+						b.Close()
+						return
+					}
+					b.Write(okBytes)
+				}
+			}()
+			return a, nil
+		}}
+		msg := kmip.NewRequestMessage(kmip.V1_4, &payloads.ActivateRequestPayload{UniqueIdentifier: "x"})
+		if _, err := c.Roundtrip(context.Background(), &msg); err == nil {
+			t.Fatalf("setup: call succeeded while the server is down")
+		}
+		_ = c.Close()
+		down = false
+		d := dials
+		if _, err := c.Roundtrip(context.Background(), &msg); err == nil || dials != d {
+			t.Fatalf("GOCV-REPRODUCED: {{.Obligation}}: a client closed while it had no connection is used again: err=%v, dials %d -> %d", err, d, dials)
+		}
+	}
 }
 `}
 	replayers["(*kmipclient.Client).Close"] = replayers["scenario:C11"]
 	replayers["(*kmipclient.Client).doRountrip"] = replayers["scenario:C11-recover"]
 	replayers["(*kmipclient.Client).reconnect"] = replayers["scenario:C11"]
 	// registry bijection at run time (C17): everything registered is written by name and read back as the same number
-	replayers["scenario:C17"] = &Replayer{PkgDir: ".", Oracle: "for every registered tag, enumeration value and bit-mask flag: the name written by the XML form is read back as the same number (exhaustive over the run-time registry)",
+	replayers["scenario:C17"] = &Replayer{PkgDir: ".", Oracle: "for every registered tag, enumeration value and bit-mask flag: the name written by the XML form is read back as the same number, and near misses of registered names (case variants, inserted punctuation, padding) are rejected (exhaustive over the run-time registry)",
 		Template: `package kmip_test
 
 import (
+	"strings"
 	"testing"
 
 	"github.com/ovh/kmip-go"
@@ -1683,6 +1823,10 @@ func TestGocvReplay(t *testing.T) {
 		if err := ttlv.UnmarshalXML(ttlv.MarshalXML(&v), &back); err != nil || back.Tag != tag {
 			t.Fatalf("GOCV-REPRODUCED: {{.Obligation}}: tag 0x%06X written as %q is read back as 0x%06X (err %v)", tag, name, back.Tag, err)
 		}
+		byName := map[string]bool{}
+		for _, ename := range ttlv.EnumValuesByTag(tag) {
+			byName[ename] = true
+		}
 		for val, ename := range ttlv.EnumValuesByTag(tag) {
 			got, err := ttlv.EnumByName(tag, ename)
 			if err != nil || got != val {
@@ -1690,6 +1834,15 @@ func TestGocvReplay(t *testing.T) {
 			}
 			if n2 := ttlv.EnumName(tag, val); n2 != ename {
 				t.Fatalf("GOCV-REPRODUCED: {{.Obligation}}: %s value %d has two names %q / %q", name, val, ename, n2)
+			}
+			// names that are not registered denote nothing: near misses of a registered name are rejected
+			for _, variant := range []string{strings.ToLower(ename), strings.ToUpper(ename), ename + " ", " " + ename, ename[:1] + "-" + ename[1:], ename + "x"} {
+				if _, registered := byName[variant]; variant == ename || registered {
+					continue
+				}
+				if got, err := ttlv.EnumByName(tag, variant); err == nil {
+					t.Fatalf("GOCV-REPRODUCED: {{.Obligation}}: %s: the unregistered name %q is accepted and denotes %d (a near miss of %q)", name, variant, got, ename)
+				}
 			}
 		}
 		for i := 0; i < 32; i++ {
@@ -1700,6 +1853,14 @@ func TestGocvReplay(t *testing.T) {
 			got, err := ttlv.BitmaskByStr(tag, s)
 			if err != nil || got != int32(1)<<uint(i) {
 				t.Fatalf("GOCV-REPRODUCED: {{.Obligation}}: %s flag %d is written as %q which is read back as %d (err %v)", name, i, s, got, err)
+			}
+			for _, variant := range []string{strings.ToLower(s), strings.ToUpper(s), s[:1] + "-" + s[1:], s + "x"} {
+				if variant == s {
+					continue
+				}
+				if got, err := ttlv.BitmaskByStr(tag, variant); err == nil && got != 0 {
+					t.Fatalf("GOCV-REPRODUCED: {{.Obligation}}: %s: the unregistered flag name %q is accepted and denotes %d (a near miss of %q)", name, variant, got, s)
+				}
 			}
 		}
 	}
@@ -1720,3 +1881,119 @@ func TestGocvReplay(t *testing.T) {
 }
 `}
 }
+
+const c05Head = `package kmip_test
+
+import (
+	"bytes"
+	"math/big"
+	"reflect"
+	"testing"
+	"time"
+
+	"github.com/ovh/kmip-go"
+	"github.com/ovh/kmip-go/payloads"
+	"github.com/ovh/kmip-go/ttlv"
+)
+
+var _ = payloads.GetRequestPayload{}
+var _ = big.NewInt
+var _ = time.Now
+
+type gocvWrap struct {
+	ProtocolVersion kmip.ProtocolVersion ` + "`" + `ttlv:",set-version"` + "`" + `
+	Body            any                  ` + "`" + `ttlv:"RequestPayload"` + "`" + `
+}
+
+func gocvPopulate(v reflect.Value) bool {
+	switch v.Kind() {
+	case reflect.Bool:
+		v.SetBool(true)
+	case reflect.Int8, reflect.Int16, reflect.Int32, reflect.Int64, reflect.Int:
+		v.SetInt(1)
+	case reflect.Uint8, reflect.Uint16, reflect.Uint32, reflect.Uint64:
+		v.SetUint(1)
+	case reflect.String:
+		v.SetString("x")
+	case reflect.Slice:
+		if v.Type().Elem().Kind() == reflect.Uint8 {
+			v.SetBytes([]byte{1})
+			return true
+		}
+		el := reflect.New(v.Type().Elem()).Elem()
+		gocvPopulate(el)
+		v.Set(reflect.Append(v, el))
+	case reflect.Pointer:
+		p := reflect.New(v.Type().Elem())
+		gocvPopulate(p.Elem())
+		v.Set(p)
+	case reflect.Struct:
+		if v.Type() == reflect.TypeOf(time.Time{}) {
+			v.Set(reflect.ValueOf(time.Unix(1000, 0)))
+			return true
+		}
+		if v.Type() == reflect.TypeOf(big.Int{}) {
+			v.Set(reflect.ValueOf(*big.NewInt(5)))
+			return true
+		}
+		for i := 0; i < v.NumField(); i++ {
+			if v.Type().Field(i).IsExported() {
+				gocvPopulate(v.Field(i))
+			}
+		}
+	default:
+		return false
+	}
+	return true
+}
+
+func TestGocvReplay(t *testing.T) {
+	fields := []struct {
+		ptr          any
+		field        string
+		major, minor int32
+	}{
+`
+
+const c05Tail = `
+	}
+	enc := func(v kmip.ProtocolVersion, body any) (out []byte) {
+		defer func() {
+			if p := recover(); p != nil {
+				t.Logf("encoder panic: %v", p)
+				out = []byte("panic")
+			}
+		}()
+		e := ttlv.NewTTLVEncoder()
+		e.TagAny(kmip.TagRequestMessage, &gocvWrap{ProtocolVersion: v, Body: body})
+		return append([]byte{}, e.Bytes()...)
+	}
+	for _, f := range fields {
+		ty := reflect.TypeOf(f.ptr).Elem()
+		for _, v := range []kmip.ProtocolVersion{kmip.V1_0, kmip.V1_1, kmip.V1_2, kmip.V1_3, kmip.V1_4} {
+			empty := reflect.New(ty)
+			full := reflect.New(ty)
+			for _, x := range []reflect.Value{empty, full} {
+				// headers carry the version themselves
+				if pv := x.Elem().FieldByName("ProtocolVersion"); pv.IsValid() && pv.Type() == reflect.TypeOf(v) {
+					pv.Set(reflect.ValueOf(v))
+				}
+			}
+			if !gocvPopulate(full.Elem().FieldByName(f.field)) {
+				t.Logf("skip %s.%s: cannot populate", ty, f.field)
+				continue
+			}
+			a, b := enc(v, empty.Interface()), enc(v, full.Interface())
+			if string(a) == "panic" || string(b) == "panic" {
+				t.Logf("skip %s.%s: encoder panics on the synthetic value", ty, f.field)
+				continue
+			}
+			present := !bytes.Equal(a, b)
+			want := v.ProtocolVersionMajor > f.major || v.ProtocolVersionMajor == f.major && v.ProtocolVersionMinor >= f.minor
+			if present != want {
+				t.Fatalf("GOCV-REPRODUCED: {{.Obligation}}: %s.%s (introduced in %d.%d) populated and encoded at %d.%d: present=%v, want %v", ty, f.field, f.major, f.minor, v.ProtocolVersionMajor, v.ProtocolVersionMinor, present, want)
+			}
+		}
+	}
+}
+`
